@@ -43,6 +43,14 @@ impl MulSpecImpl<LazyBigint> for LazyBigint {
 
 pub assume_specification [i64::is_positive] (a: i64) -> (r: bool) ensures r == (a > 0);
 pub assume_specification [i64::is_negative] (a: i64) -> (r: bool) ensures r == (a < 0);
+// saturating arithmetic (documented std semantics), so that a body using it stays within the dialect
+pub open spec fn clamp64(x: int) -> int { if x < i64::MIN { i64::MIN as int } else if x > i64::MAX { i64::MAX as int } else { x } }
+pub assume_specification [i64::saturating_sub] (a: i64, b: i64) -> (r: i64) ensures r as int == clamp64(a - b);
+pub assume_specification [i64::saturating_add] (a: i64, b: i64) -> (r: i64) ensures r as int == clamp64(a + b);
+pub assume_specification [i64::saturating_neg] (a: i64) -> (r: i64) ensures r as int == clamp64(-a);
+pub assume_specification [i64::wrapping_neg] (a: i64) -> (r: i64);
+pub assume_specification [i64::abs] (a: i64) -> (r: i64) requires a != i64::MIN, ensures r as int == (if a >= 0 { a as int } else { -(a as int) });
+pub assume_specification [i64::unsigned_abs] (a: i64) -> (r: u64) ensures r as int == (if a >= 0 { a as int } else { -(a as int) });
 pub assume_specification [i128::is_positive] (a: i128) -> (r: bool) ensures r == (a > 0);
 pub assume_specification [i128::is_negative] (a: i128) -> (r: bool) ensures r == (a < 0);
 
@@ -91,6 +99,51 @@ pub proof fn lemma_div_nonneg_bound(x: int, d: int)
     vstd::arithmetic::div_mod::lemma_mod_bound(x, d);
     let q = x / d;
     assert(0 <= q <= x) by(nonlinear_arith) requires x == d * q + x % d, 0 <= x % d < d, d > 0, x >= 0;
+}
+
+// ------------------------------------------------------------------ XSequence::slice (composition of lazy slices)
+/// `Rc<ManagedXValue>` holding a sequence; `len` is the length of the sequence it holds (None = infinite)
+pub struct Inner { pub len: Ghost<Option<usize>> }
+impl Inner {
+    #[verifier::external_body]
+    pub fn clone(&self) -> (r: Inner) ensures r == *self { unimplemented!() }
+}
+/// the representations that matter for slicing: a slice of a source, the empty sequence, anything else
+/// (with its length)
+pub enum XSequence { Slice(Inner, usize, Option<usize>), Empty, Other(Ghost<Option<usize>>) }
+
+impl XSequence {
+    /// representation invariant documented at the enum (`end is always at most the length of the
+    /// sequence, start is always lower than end; end = None indicates an infinite sequence`)
+    pub open spec fn rep_ok(self) -> bool {
+        match self {
+            XSequence::Slice(src, s, e) => match e {
+                Some(x) => s < x && (src.len@ matches Some(l) ==> x <= l),
+                None => src.len@ is None,
+            },
+            _ => true,
+        }
+    }
+    pub open spec fn seq_len(self) -> Option<usize> {
+        match self {
+            XSequence::Slice(_, s, e) => match e { Some(x) => Some((x - s) as usize), None => None },
+            XSequence::Empty => Some(0usize),
+            XSequence::Other(l) => l@,
+        }
+    }
+    #[verifier::external_body]
+    pub fn len(&self) -> (r: Option<usize>)
+        requires self.rep_ok(),
+        ensures r == self.seq_len(),
+    { unimplemented!() }
+}
+/// the end of the requested window after clamping to the length
+pub open spec fn eff_end(end: Option<usize>, len: Option<usize>) -> Option<usize> {
+    match (end, len) {
+        (None, _) => len,
+        (Some(e), Some(l)) => if e >= l { Some(l) } else { Some(e) },
+        (Some(e), None) => Some(e),
+    }
 }
 
 // @@EXTRACTED@@
